@@ -6,6 +6,7 @@ import (
 	"go/token"
 	"go/types"
 	"math/big"
+	"os"
 	"sort"
 	"strings"
 
@@ -439,6 +440,13 @@ func (fx *fexec) finishEdge(from, to *ssa.BasicBlock, st *State) {
 
 func (fx *fexec) execInstr(in ssa.Instruction, st *State) {
 	vc := fx.vc
+	if debugLevel >= 2 {
+		n := 0
+		for _, s := range vc.script {
+			n += len(s)
+		}
+		fmt.Fprintf(os.Stderr, "%s%s: %s  [script %d lines, %d bytes, reach %d bytes]\n", strings.Repeat("  ", fx.depth), fx.posOf(in), in.String(), len(vc.script), n, len(st.reach.S))
+	}
 	switch x := in.(type) {
 	case *ssa.BinOp:
 		fx.env[x] = fx.binop(x, st)
@@ -972,7 +980,7 @@ func (vc *VC) convertVal(st *State, v Val, rt types.Type, name string) Val {
 				return Val{Ty: rt, T: bvLit(c, to.w)}
 			}
 			b := vc.nameBV(name, Term{fmt.Sprintf("((_ int2bv %d) %s)", to.w, v.T.S), bvSort(to.w)})
-			if !strings.Contains(v.T.S, "q_") && !strings.Contains(v.T.S, "p!") {
+			if !hasFreeBound(v.T.S) {
 				// bridge for the solvers: the bit-vector denotes x mod 2^w
 				vc.assert(eq(app(SInt, "bv2nat", b), app(SInt, "mod", v.T, bigLit(pow2(to.w)))))
 				if vc.bridged == nil {
